@@ -119,6 +119,9 @@ class Tr:
             if t == "Z": return (f"({v} mod 2 ^ {k.uint})", "Z")
         if isinstance(e, ast.Call) and isinstance(e.func, ast.Attribute) and e.func.attr == "ravel" and not e.args:
             return self.expr(e.func.value)                                              # per element: a reshape
+        if isinstance(e, ast.Call) and isinstance(e.func, ast.Name) and e.func.id == "int" and len(e.args) == 1 and not e.keywords:
+            v, t = self.expr(e.args[0])
+            if t == "Z": return (v, "Z")                                                # int(x) of an integer: the value itself
         if isinstance(e, ast.Call) and isinstance(e.func, ast.Name) and e.func.id == "abs":
             v, t = self.expr(e.args[0])
             if t == "Z": return (f"(Z.abs {v})", "Z")
